@@ -144,7 +144,8 @@ CHECKS = {
             "technique": "stateful property-based testing (rapid): differential pair + reference model",
         },
         "assumptions": ["golang.org/x/crypto keyring is the underlying agent"],
-        "subchecks": [R("TestC09NoUpstream", 300, 1500, qs=2), R("TestC09Many", 25, 250, ts=4), R("TestC09AddedMeanwhile", 300, 3000, ts=8)],
+        "subchecks": [R("TestC09NoUpstream", 300, 1500, qs=2), R("TestC09Many", 25, 250, ts=4), R("TestC09AddedMeanwhile", 300, 3000, ts=8),
+                      R("TestC09Faults", 300, 3000, qs=2, ts=8)],
     },
     "C10": {
         "pkg": "c10", "level": "exploration",
@@ -162,7 +163,7 @@ CHECKS = {
     "C11": {
         "pkg": "c11", "level": "exploration", "race": True,
         "manifest": {
-            "text": "generated concurrent programs (2..16 goroutines, direct calls and served connections, both modes, purging inside the race window) run under the race detector; every request carries a unique tag so that crossed replies are visible; mutations follow per-goroutine life cycles of disjoint keys, which makes the set of sequential outcomes a single state that the final keyring and listing are compared with; small programs over SHARED keys (hardware-certificate registration racing with remove / remove-all) are judged by an exhaustive search for a sequential order that explains every caller's observation and the final state against a pure model of the two tables; fixed signers / extension / forward storms target the two places the property names; one request answered by the underlying agent only after seconds (touch / PIN prompt) with other clients queued behind it must not shift anybody's replies; Close called while another caller's request is outstanding at the underlying agent (the request precedes Close in every sequential order)",
+            "text": "generated concurrent programs (2..16 goroutines, direct calls and served connections, both modes, purging inside the race window) run under the race detector; every request carries a unique tag so that crossed replies are visible; mutations follow per-goroutine life cycles of disjoint keys, which makes the set of sequential outcomes a single state that the final keyring and listing are compared with; small programs over SHARED keys (hardware-certificate registration racing with remove / remove-all) are judged by an exhaustive search for a sequential order that explains every caller's observation and the final state against a pure model of the two tables; fixed signers / extension / forward storms target the two places the property names; one request answered by the underlying agent only after seconds (touch / PIN prompt) with other clients queued behind it must not shift anybody's replies; Close called while another caller's request is outstanding at the underlying agent (the request precedes Close in every sequential order); 8..150 (thorough: 600) wait requests for a code nobody sends parked on one production server, part of their clients gone, while other clients' add / list / sign / remove must complete and the awaited request, when it arrives, releases the waiters that stayed",
             "note": "schedules are sampled, not enumerated; the race detector reports any unsynchronised pair that executes, independent of timing, which is why it is the main oracle; signing through Signer objects returned by Signers() is outside the listed operations and not generated",
             "technique": "generated concurrent programs (rapid) + Go race detector + tag matching + order-independent final-state oracle + sequential-explanation search against a reference model",
         },
@@ -173,6 +174,7 @@ CHECKS = {
             E("TestC11CloseInFlight", quick={"shards": 1, "timeout": 600}, thorough={"shards": 1, "timeout": 900}),
             E("TestC11VanishingClient", quick={"shards": 1, "timeout": 600}, thorough={"shards": 1, "timeout": 900}),
             E("TestC11ReadYourWrites", quick={"shards": 1, "timeout": 600}, thorough={"shards": 1, "timeout": 1200}),
+            E("TestC11ParkedWaits", quick={"shards": 1, "timeout": 600}, thorough={"shards": 1, "timeout": 900}),
             R("TestC11Concurrent", 40, 250, qs=2, quick_extra={"timeout": 600}, thorough_extra={"timeout": 1500}),
             R("TestC11Sequential", 150, 1500, qs=2, ts=8, quick_extra={"timeout": 600}, thorough_extra={"timeout": 1500}),
         ],
@@ -326,7 +328,7 @@ CHECKS = {
             R("TestC20Wait", 200, 2000, qs=2, quick_extra={"timeout": 300}),
             R("TestC20Blackbox", 12, 120, qs=4, ts=8, quick_extra={"timeout": 300}),
             R("TestC20Concurrent", 8, 60, qs=4, ts=8, quick_extra={"timeout": 300}),
-            E("TestC20BusyUpstream", quick={"shards": 1, "timeout": 300}, thorough={"shards": 1, "timeout": 600}),
+            E("TestC20Construct"), E("TestC20BusyUpstream", quick={"shards": 1, "timeout": 300}, thorough={"shards": 1, "timeout": 600}),
         ],
     },
 }
